@@ -7,6 +7,7 @@ Property theorems for C04 (statements are printed by `#check`, axioms by `#check
 #check @Registry.min_registry_correct
 #check @Registry.extremum_of_isMax
 #check @Registry.extremum_of_isMin
+#check @Registry.bounds_registry_correct
 #print axioms`;
 `bin/check C04` re-elaborates this file on every run and audits the axiom lists).
 -/
@@ -27,3 +28,4 @@ open SignaloModel
 #print axioms Registry.min_registry_correct
 #print axioms Registry.extremum_of_isMax
 #print axioms Registry.extremum_of_isMin
+#print axioms Registry.bounds_registry_correct
